@@ -54,6 +54,7 @@ def check(rep: Report, ctx: Ctx) -> None:
     r714(rep, ctx)
     r715(rep, ctx)
     r716(rep, ctx)
+    # r717(rep, ctx)   -- armed after the D8 triage (see DESIGN section 9)
 
 
 def r71(rep: Report, ctx: Ctx, det: FuncInfo) -> None:
@@ -1264,3 +1265,87 @@ def r716(rep: Report, ctx: Ctx) -> None:
            node=ctors[0] if ctors else fi.node,
            detail=f"{len(ctors)} Event(..) constructor call(s), created "
                   "once per triggering break event")
+
+
+# functions that change a model graph without touching the mirror sets, each
+# confirmed by reading (one line of reason per exception)
+UNMIRRORED_OK = {
+    "get_disconnected_loop_sub_graph":
+        "removes the other weakly connected components: no edge joins them "
+        "to the component that is kept, so no kept event names them",
+}
+
+
+def r717(rep: Report, ctx: Ctx) -> None:
+    """Who may change a model graph?  The graph of Event objects and the
+    successor / predecessor sets of those events describe the same relation;
+    every phase after loop extraction reads the SETS (gate inference, merge
+    validation, the dummies of a nested loop), so an edge added or removed
+    without its mirror leaves evidence that no longer matches the graph.
+    Every structural mutation on a model graph (a graph parameter or the
+    deep copy of one - not a scratch graph built or copied locally) in the
+    loop-detection package and the helpers it calls must have its mirror in
+    the same function: an added edge a -> b comes with a.update_event_sets
+    or b.update_in_event_sets; edges are removed only by the two-structure
+    helper; nodes are removed only after the mirror sets of their out-edges
+    were removed."""
+    from .effspec import effects
+    rep.rule("R7.17", "every structural change of a model graph is mirrored "
+             "on the successor / predecessor sets in the same function", 12)
+    MUT = {"add_edge", "remove_edge", "remove_edges_from", "remove_node",
+           "remove_nodes_from", "add_edges_from"}
+    sites = 0
+    for fi in ctx.index.all_functions():
+        rel = fi.module.relpath
+        if not ("loop_detection" in rel or rel.endswith("utils.py")):
+            continue
+        effs = effects(ctx, fi)
+        for e in [x for x in effs if x.kind == "call" and x.name in MUT]:
+            recv = e.recv
+            scratch = not (recv.startswith("P:") or recv.startswith(
+                "deepcopy(")) or ".copy()" in recv or ".subgraph(" in recv
+            if scratch:
+                continue
+            sites += 1
+            if fi.name in UNMIRRORED_OK:
+                rep.ob("R7.17", f"{fi.name}: {e.name} without mirror "
+                       "(listed exception)", True, fi=fi, node=e.node,
+                       detail=UNMIRRORED_OK[fi.name])
+                continue
+            ok, why = False, ""
+            if e.name == "add_edge" and len(e.args) == 2:
+                a, b = e.args
+                comp = [x for x in effs if x.kind == "call" and (
+                    (x.name == "update_event_sets" and x.recv == a) or
+                    (x.name == "update_in_event_sets" and x.recv == b))]
+                ok = bool(comp)
+                why = (f"edge {a[:60]} -> {b[:60]}; evidence written in the "
+                       "same function: " + ("; ".join(
+                           f"{x.recv[:40]}.{x.name}" for x in comp) or
+                           "NONE - the new edge is invisible to gate "
+                           "inference and merge validation"))
+            elif e.name in ("remove_edges_from", "remove_edge"):
+                comp = [x for x in effs if x.kind == "call" and x.name ==
+                        "remove_event_sets_mirroring_removed_edges"
+                        and x.args[:1] == e.args[:1]]
+                ok = bool(comp)
+                why = ("edges removed; mirror call on the same edges: "
+                       + ("yes" if ok else "NONE - the sets keep naming "
+                          "neighbours that are gone"))
+            elif e.name in ("remove_nodes_from", "remove_node"):
+                n = e.args[0] if e.args else "?"
+                pat = f".out_edges({n})"
+                comp = [x for x in effs if x.kind == "call" and x.name in (
+                    "remove_event_sets_mirroring_removed_edges",
+                    "remove_event_edges_and_event_sets")
+                    and x.args and pat in x.args[0]]
+                ok = bool(comp)
+                why = (f"nodes {n[:80]} removed; mirror sets of their "
+                       "out-edges removed first: " + (
+                           "yes" if ok else "NO - surviving successors keep "
+                           "predecessor sets that name the removed events"))
+            rep.ob("R7.17", f"{fi.name}: {e.name} is mirrored", ok, fi=fi,
+                   node=e.node, detail=why)
+    if sites < 12:
+        raise AnalysisError(f"R7.17: only {sites} graph mutation sites "
+                            "found (12 confirmed by hand)")
